@@ -75,7 +75,7 @@ Fixpoint list_items (fuel : nat) (s : text) (acc : list text) : lres :=
     match skip_ws s with
     | [] => LsErr                                            (* `[` was never closed *)
     | c :: r =>
-      if c =? 93 then (if forallb is_blank r then LsOk (rev acc) else LsUnsup)
+      if c =? 93 then (if blank_tail r then LsOk (rev acc) else LsUnsup)
       else
         match read_item (c :: r) with
         | ItErr => LsErr
@@ -85,7 +85,7 @@ Fixpoint list_items (fuel : nat) (s : text) (acc : list text) : lres :=
           | [] => LsErr
           | d :: r2 =>
             if d =? 44 then list_items f r2 (t :: acc)
-            else if d =? 93 then (if forallb is_blank r2 then LsOk (rev (t :: acc)) else LsUnsup)
+            else if d =? 93 then (if blank_tail r2 then LsOk (rev (t :: acc)) else LsUnsup)
             else LsUnsup
           end
         end
